@@ -267,8 +267,49 @@ def r3_no_other_escape(rep, src, model):
                              where='%s:%d' % (f.module.relpath, n.lineno))
                     continue
             rep.ok('C15.R3', f.site, what, 'group exists%s' % (' and always participates' if needs else ''), nontrivial=needs)
+    # attribute stores on the block being filled: where the attribute is a property, its setter runs inside the parser; a setter
+    # that can raise (a raise statement, or a validating constructor of the version classes) is an escape outside _parse_error
+    cb = {}
+    cmod = src.mod(M)
+    cdef = cmod.classes.get('ChangeBlock')
+    for st in (cdef.body if cdef is not None else []):
+        if isinstance(st, ast.Assign) and isinstance(st.value, ast.Call) and norm(st.value.func) == 'property' and len(st.value.args) >= 2 \
+                and isinstance(st.value.args[1], ast.Name):
+            for t_ in st.targets:
+                if isinstance(t_, ast.Name):
+                    cb[t_.id] = cmod.funcs.get('ChangeBlock.' + st.value.args[1].id)
+    for fn_ in cmod.funcs.values():
+        if fn_.cls == 'ChangeBlock' and isinstance(fn_.node, ast.FunctionDef):
+            for d in fn_.node.decorator_list:
+                if isinstance(d, ast.Attribute) and d.attr == 'setter':
+                    cb[fn_.node.name] = fn_
+    blockvars = {norm(a.targets[0]) for a in walk_no_nested(f.node) if isinstance(a, ast.Assign) and isinstance(a.value, ast.Call) and norm(a.value.func) == 'ChangeBlock'}
+    n_prop = 0
+    for a in walk_no_nested(model.fnode):
+        if not (isinstance(a, ast.Assign) and isinstance(a.targets[0], ast.Attribute) and norm(a.targets[0].value) in blockvars):
+            continue
+        setter = cb.get(a.targets[0].attr)
+        if setter is None:
+            continue
+        n_prop += 1
+        what = 'setter of %s.%s' % (norm(a.targets[0].value), a.targets[0].attr)
+        risky = [n_ for n_ in ast.walk(setter.node) if isinstance(n_, ast.Raise)
+                 or (isinstance(n_, ast.Call) and norm(n_.func) in ('Version', 'BaseVersion', 'NativeVersion', 'AptPkgVersion', 'int', 'float'))]
+        guarded = any(isinstance(p_, ast.Try) for p_ in _ancestors(a))
+        if risky and not guarded:
+            rep.fail('C15.R3', f.site, what, 'the parser assigns through a property whose setter (%s) can raise (%s): the lenient constructor raises instead of warning'
+                     % (setter.qual, norm(risky[0])[:50]), where='%s:%d' % (f.module.relpath, a.lineno))
+        else:
+            rep.ok('C15.R3', f.site, what, 'setter %s cannot raise' % setter.qual, nontrivial=False)
     # decode of non-str lines is the only other implicit source (text input: not taken)
     rep.ok('C15.R3', f.site, 'explicit raises', 'none outside _parse_error (see R1)', nontrivial=False)
+
+
+def _ancestors(n):
+    n = getattr(n, '_parent', None)
+    while n is not None:
+        yield n
+        n = getattr(n, '_parent', None)
 
 
 def r4_eof(rep, src, model, states):
